@@ -536,7 +536,7 @@ func (l *Ledger) Quiesce() []Violation {
 	if l.expectConn != "" {
 		if !l.connErrorAnswered() {
 			l.bad("overflow-not-rejected", 0, "%s, and the subject neither answered GOAWAY(FLOW_CONTROL_ERROR) nor closed the connection", l.expectConn)
-			l.viol[len(l.viol)-1].Cause = strings.SplitN(l.expectConn, "(", 2)[0] + " (connection error required)"
+			l.viol[len(l.viol)-1].Cause = trigger(l.expectConn) + " (connection error required)"
 		}
 		l.expectConn = "-"
 	}
@@ -550,7 +550,7 @@ func (l *Ledger) Quiesce() []Violation {
 				kind = "window-excess-not-rejected"
 			}
 			l.bad(kind, id, "%s, and the subject answered neither RST_STREAM(FLOW_CONTROL_ERROR) nor GOAWAY(FLOW_CONTROL_ERROR) nor closed the connection", why)
-			l.viol[len(l.viol)-1].Cause = strings.SplitN(why, "(", 2)[0] + " (stream or connection error required)"
+			l.viol[len(l.viol)-1].Cause = trigger(why) + " (stream or connection error required)"
 		}
 		l.expectStream[id] = "-"
 	}
@@ -600,6 +600,14 @@ func (l *Ledger) Quiesce() []Violation {
 	v := l.viol
 	l.viol = nil
 	return v
+}
+
+// trigger names the kind of frame that created an expectation ("WINDOW_UPDATE", "SETTINGS_INITIAL_WINDOW_SIZE", "DATA").
+func trigger(why string) string {
+	if i := strings.IndexAny(why, "=( "); i > 0 {
+		return why[:i]
+	}
+	return why
 }
 
 // Key is a canonical description of the ledger state (for state keys).
